@@ -20,7 +20,12 @@ Inductive hop9 :=
    reads Retained(t) over and over.  In every order of these operations the topic has exactly one retained message at
    every moment, and the single writer's messages are stored in order: no read may come back empty, the tags read
    never go back. *)
-| HReplace (t : list N) (qos k nreads nempty : N) (monotone : bool).
+| HReplace (t : list N) (qos k nreads nempty : N) (monotone : bool)
+(* [iters] times: an already expired retained message sits on a topic; six goroutines read Retained(topic) (the read
+   path sweeps what has expired) while a seventh publishes a fresh retained message there; at quiescence the topic must
+   hold the fresh message - [lost] counts the iterations in which it held nothing.  Every order of "sweep the expired
+   one" and "store the fresh one" ends with the fresh one stored. *)
+| HSweep (iters lost : N).
 
 Record case9 := mkCase9 { hops9 : list hop9; ran9 : bool }.
 
@@ -52,6 +57,7 @@ Fixpoint check9 (n : node) (hs : list hop9) : bool :=
   | HRetQ9 f tags :: r => list_eqb (sortN (map rkey (ret_search_top (split f) n))) tags && check9 n r
   | HReplace t q k nr ne mono :: r =>
       (0 <? nr) && (ne =? 0) && mono && check9 (step n (ORetain t (mkMsg k q false) false true)) r
+  | HSweep iters lost :: r => (0 <? iters) && (lost =? 0) && check9 n r
   end.
 
 Definition case_ok9 (c : case9) : bool := ran9 c && check9 empty_node (hops9 c).
@@ -80,4 +86,5 @@ Fixpoint first_bad9 (i : nat) (n : node) (hs : list hop9) : option (nat * list N
       else Some (i, sortN (map rkey (ret_search_top (split f) n)))
   | HReplace t q k nr ne mono :: r =>
       if (0 <? nr) && (ne =? 0) && mono then first_bad9 (S i) (step n (ORetain t (mkMsg k q false) false true)) r else Some (i, [ne])
+  | HSweep iters lost :: r => if (0 <? iters) && (lost =? 0) then first_bad9 (S i) n r else Some (i, [lost])
   end.
